@@ -197,7 +197,7 @@ def run(ctx):
     cases = ctx.tlc_gen("odb", "Alternates_Gen", consts=consts, workers=6, timeout=3000)
     ctx.cov["exhaustive"] = True
     ctx.cov["instance"] = consts
-    bad = run_worlds(ctx, binary, tmpl, cases, "a", audit_share=1.0 if ctx.thorough else 0.05)
+    bad = run_worlds(ctx, binary, tmpl, cases, "a", audit_share=0.15 if ctx.thorough else 0.05)
     for c in cases:
         # non-trivial: more than one link is followed, or a cycle / duplicate has to be recognised
         if len(c["required"]) >= 2 or c["truecycle"] or sum(len(x) for x in c["graph"]) > len(c["required"]):
